@@ -141,9 +141,23 @@ def parse(path):
             s = x['slot']
             args.append({'ARR': 't.%s' % s, 'SCALAR': 't.%ss' % s, 'EXTREF': 't.%sext' % s, 'REG1': 't.%sreg[0]' % s, 'REG3': 't.%sreg' % s,
                          'REG3S': 't.%sreg[0], t.%sreg[1], t.%sreg[2]' % (s, s, s)}[k])
+        # in-place variants: the output is the same object as the first / second operand (only where shapes coincide)
+        def alias_args(slot):
+            x = ins[0] if slot == 'a' else ins[1]
+            ok = False
+            if out['kind'] in ('REG3', 'REG3S') and x['kind'] == out['kind'] and x['dim'] == 3:
+                ok = True
+            if out['kind'] == 'ARR' and out['stride'] is None and x['kind'] == 'ARR' and x['stride'] is None and x['dim'] == 3 and not x['const']:
+                ok = True
+            if not ok:
+                return None
+            res = list(args)
+            res[0] = {'ARR': 't.%s' % slot, 'REG3': 't.%sreg' % slot, 'REG3S': 't.%sreg[0], t.%sreg[1], t.%sreg[2]' % (slot, slot, slot)}[out['kind']]
+            return res
+        alias_a, alias_b = alias_args('a'), alias_args('b')
         decl = name + '(' + ', '.join(ps) + ')'
         rows.append(dict(line=ln, decl=decl, name=name, op=op, fam=fam, L=L, dA=dA, dB=dB, cA=cA or ins[0]['kind'] in ('SCALAR', 'EXTREF'), cB=ins[1]['const'] or ins[1]['kind'] in ('SCALAR', 'EXTREF'),
-                         A=kind(ins[0]), B=kind(ins[1]), C=kind(out, True), aux=('AUX_ARR' if aux and aux['kind'] == 'AUXARR' else 'AUX_REG' if aux else 'AUX_NONE'), args=args))
+                         A=kind(ins[0]), B=kind(ins[1]), C=kind(out, True), aux=('AUX_ARR' if aux and aux['kind'] == 'AUXARR' else 'AUX_REG' if aux else 'AUX_NONE'), args=args, alias_a=alias_a, alias_b=alias_b))
     return rows
 
 
@@ -163,7 +177,10 @@ if __name__ == '__main__':
                 continue
             tt = 'T8' if fam == 'avx512' else 'T4'
             call = 'Goldilocks3::%s(%s)' % (r['name'], ', '.join(r['args']))
-            print('{"%s", %d, OP_%s, %d, %d, %s, %s, %d, %s, %s, %s, %s, [](TB &tb) { %s &t = static_cast<%s &>(tb); %s; }},' % (
-                r['decl'].replace('Goldilocks::', '').replace('Goldilocks3::', ''), r['line'], r['op'].upper(), r['L'], r['dA'], 'true' if r['cA'] else 'false', r['A'], r['dB'], 'true' if r['cB'] else 'false', r['B'], r['C'], r['aux'], tt, tt, call))
+            def lam(a):
+                return 'nullptr' if a is None else '[](TB &tb) { %s &t = static_cast<%s &>(tb); Goldilocks3::%s(%s); }' % (tt, tt, r['name'], ', '.join(a))
+            print('{"%s", %d, OP_%s, %d, %d, %s, %s, %d, %s, %s, %s, %s, [](TB &tb) { %s &t = static_cast<%s &>(tb); %s; }, %s, %s},' % (
+                r['decl'].replace('Goldilocks::', '').replace('Goldilocks3::', ''), r['line'], r['op'].upper(), r['L'], r['dA'], 'true' if r['cA'] else 'false', r['A'], r['dB'], 'true' if r['cB'] else 'false', r['B'], r['C'], r['aux'], tt, tt, call,
+                lam(r['alias_a']), lam(r['alias_b'])))
         if fam == 'avx512':
             print('#endif')
